@@ -64,6 +64,7 @@ func genChurnScn(rng *rand.Rand, maxN int) faultScn {
 		}
 	}
 	sortActions(sc.Actions)
+	sc.rareConfig(rng)
 	return sc
 }
 
